@@ -722,3 +722,30 @@ Proof.
   - intros k [H|[]]. discriminate.
   - vm_compute. discriminate.
 Qed.
+
+(* ---------- a passed correspondence case is an instance of the theorem ---------- *)
+Lemma smap_eqb_eq (a b : smap val) : smap_eqb keqb a b = true -> a = b.
+Proof.
+  revert b; induction a as [|[k v] a IH]; intros [|[k' v'] b] H; cbn in H; try discriminate; [reflexivity|].
+  apply andb_prop in H as [H H3]. apply andb_prop in H as [H1 H2].
+  apply keqb_eq in H1, H2. subst. f_equal. apply IH; exact H3.
+Qed.
+
+Lemma db_eqb_eq (x y : db val) : db_eqb keqb x y = true -> x = y.
+Proof.
+  destruct x as [u l c h], y as [u' l' c' h']. unfold db_eqb; cbn. intros H.
+  apply andb_prop in H as [H H4]. apply andb_prop in H as [H H3]. apply andb_prop in H as [H1 H2].
+  apply smap_eqb_eq in H1, H2, H3. apply keqb_eq in H4. subst. reflexivity.
+Qed.
+
+Lemma checked_case_exact_lemma id anc olds news pre post wn :
+  case_ok (CReorg id anc olds news pre post true wn) = true -> post = apply_all anc news.
+Proof.
+  unfold case_ok. intros H.
+  apply andb_prop in H as [H _]. apply andb_prop in H as [H W].
+  apply andb_prop in H as [H E2]. apply andb_prop in H as [S E1].
+  apply db_eqb_eq in E1, E2. apply Bool.eqb_prop in W.
+  subst pre. rewrite <- E2. apply reorg_equals_direct_lemma.
+  - apply db_sortedb_ok; exact S.
+  - apply (wf_branchb_sound keqb keqb_eq); exact W.
+Qed.
